@@ -147,6 +147,9 @@ func (s *Spec) pkgPath(i int) string {
 }
 func (s *Spec) pkgName(i int) string { return s.Pkgs[i].Name }
 
+// PkgPathOf is the import path of package i of the program.
+func (s *Spec) PkgPathOf(i int) string { return s.pkgPath(i) }
+
 // TS is TypeString in the context of this program.
 func (s *Spec) TS(t *Type) string { return TypeString(s, t) }
 
